@@ -164,7 +164,7 @@ def run_task(task):
     """(func, scenario name, timeout_ms, prop) -> dict"""
     func, scname, timeout_ms, prop = task[:4]
     shard, nshards = (task[4], task[5]) if len(task) > 4 else (0, 1)
-    tier_samples = 6 if timeout_ms <= 10000 else 40
+    tier_samples = 10 if timeout_ms <= 10000 else 40
     t0 = time.time()
     out = {"func": func, "scenario": scname, "paths": [], "vcs": [], "error": None, "shard": shard}
     try:
@@ -181,17 +181,18 @@ def run_task(task):
         else:
             ct = w.contracts[func]
             sc = [s for s in ct.scenarios if s.name == scname][0]
-            results = verify_scenario(w, ct, sc)
+            by_vc = getattr(ct, "shard_by", "path") == "vc"  # few paths with many slow obligations: split the obligations instead
+            results = verify_scenario(w, ct, sc) if by_vc else verify_scenario(w, ct, sc, shard=shard, nshards=nshards)
         vc_index = 0
         for r in results:
-            if shard == 0:
+            if shard == 0 or not (ct is not None and getattr(ct, "shard_by", "path") == "vc"):
                 out["paths"].append({"outcome": r.outcome, "detail": r.detail, "trace": [f"{t}={c}" for t, c in r.trace][:40]})
             for vc in r.vcs:
                 props = vc.meta.get("props") or (ct.serves if ct else [prop])
                 if prop not in props and vc.meta.get("kind") in ("ensures", "exc-ensures"):
                     continue
                 vc_index += 1
-                if vc_index % nshards != shard:
+                if ct is not None and getattr(ct, "shard_by", "path") == "vc" and vc_index % nshards != shard:
                     continue
                 v = prove.discharge(vc, timeout_ms)
                 d = {"name": vc.name, "status": v.status, "backend": v.backend, "secs": round(v.secs, 4),
@@ -216,8 +217,9 @@ def run_task(task):
                         d["model_error"] = repr(e)
                 out["vcs"].append(d)
         # ---- path-directed inputs for the native (bounded) evaluation of the same contract on the real code
-        if ct is not None and ct.native and ct.native.get("call") and shard == 0:
-            out["samples"] = sample_inputs(w, ct, sc, results, tier_samples)
+        if ct is not None and ct.native and ct.native.get("call"):
+            if shard == 0 or getattr(ct, "shard_by", "path") != "vc":
+                out["samples"] = sample_inputs(w, ct, sc, results, tier_samples if shard == 0 else 0, pins=shard == 0)
         from . import lib
 
         out["lib_used"] = sorted(lib.USED)
@@ -225,10 +227,16 @@ def run_task(task):
     except Exception:
         out["error"] = traceback.format_exc()
     out["secs"] = round(time.time() - t0, 3)
+    if os.environ.get("PYVC_PROFILE"):
+        from . import prove as _pv
+
+        vs = out.get("vcs", [])
+        print(f"PROFILE {task[0].split('.')[-1]} [{task[1]}] shard={task[4] if len(task) > 4 else '-'} wall={out['secs']} vcs={len(vs)} "
+              f"vc_secs={sum(v['secs'] for v in vs):.1f} nonproved={sum(1 for v in vs if v['status'] != 'proved')} tally={_pv._tally():.0f}", file=sys.stderr, flush=True)
     return out
 
 
-def sample_inputs(w, ct, sc, results, extra):
+def sample_inputs(w, ct, sc, results, extra, pins=True):
     """Concrete argument tuples: one per explored path (a model of its path condition) plus `extra` models of the
     scenario's precondition with randomly pinned numeric parameters."""
     import random
@@ -285,12 +293,28 @@ def sample_inputs(w, ct, sc, results, extra):
         goal = z3.BoolVal(True)
 
     params = prove._free_numeric_params(_VC)
-    ints = [0, 1, 2, 3, 4, 5, 7, 8, 9, 12, 16, 96]
+    ints = [0, 1, 2, 3, 4, 5, 7, 8, 9, 10, 11, 12, 16, 96, 100]
     reals = ["0", "1", "2", "5/2", "1/2", "10", "100", "950", "1/10", "33/10", "1000"]
     s = z3.Solver()
     s.set("timeout", 800)
     for c in base.pc:
         s.add(c)
+    byname = {str(prm): prm for prm in params}
+    for pin in (getattr(sc, "pins", []) if pins else []):
+        s.push()
+        for k, val in pin.items():
+            if isinstance(val, str):
+                s.add(z3.String(k) == z3.StringVal(val))
+            elif k in byname:
+                s.add(byname[k] == (val if z3.is_int(byname[k]) else z3.RealVal(str(val))))
+            else:
+                s.add((z3.Int(k) if isinstance(val, int) else z3.Real(k)) == (val if isinstance(val, int) else z3.RealVal(str(val))))
+        try:
+            if s.check() == z3.sat:
+                add(s.model(), "pin")
+        except z3.Z3Exception:
+            pass
+        s.pop()
     for _ in range(extra):
         s.push()
         for prm in params:
@@ -359,6 +383,8 @@ def safe(s):
 
 
 def check_property(prop, tier, seed):
+    from . import prove
+
     t0 = time.time()
     w = load_world()
     contracts = [ct for ct in w.contracts.values() if prop in ct.serves]
@@ -374,6 +400,7 @@ def check_property(prop, tier, seed):
     results = []
     if tasks:
         ctx = mp.get_context("fork")
+        prove.SHARED_TALLY = ctx.Value("d", 0.0)  # seconds spent on non-proved obligations, shared by the (forked) workers
         with ctx.Pool(min(16, max(1, len(tasks)))) as pool:
             results = pool.map(run_task, tasks, chunksize=1)
     violations, undecided, internal = [], [], []
@@ -408,9 +435,9 @@ def check_property(prop, tier, seed):
                 f.setdefault("beyond_reach", [])
                 if p["detail"][:100] not in f["beyond_reach"]:
                     f["beyond_reach"].append(p["detail"][:100])
-        reach[(key, res["scenario"])] = live
-        if res.get("shard", 0) == 0 and live == 0 and not any(p["outcome"] == "unsupported" for p in res["paths"]):
-            internal.append(f"{key}[{res['scenario']}]: no reachable exit (vacuous scenario: contradictory requires/invariants?)")
+        rk = reach.setdefault((key, res["scenario"]), [0, False])
+        rk[0] += live
+        rk[1] = rk[1] or any(p["outcome"] == "unsupported" for p in res["paths"])
         for d in res["vcs"]:
             n_obl += 1
             f["obligations"] += 1
@@ -427,6 +454,9 @@ def check_property(prop, tier, seed):
                 samples.append({"obligation": d["name"], "scenario": res["scenario"], "clause": d["text"], "path": d["path"],
                                 "smt_chars": d["smt_size"], "backend": d["backend"], "secs": d["secs"]})
     slowest.sort(reverse=True)
+    for (key, scn), (live, unsup) in reach.items():  # vacuity guard, over the union of the shards of a scenario
+        if live == 0 and not unsup and not any(r2["error"] for r2 in results if r2["func"] == key and r2["scenario"] == scn):
+            internal.append(f"{key}[{scn}]: no reachable exit (vacuous scenario: contradictory requires/invariants?)")
     # ---- static (syntactic) obligations: relational equality of sibling bodies, hierarchy facts, frame clauses
     from . import static
 
@@ -502,26 +532,32 @@ def check_property(prop, tier, seed):
     lines = []
     vio_count = 0
     os.makedirs(os.path.join(REPLAY_ROOT, "replays", prop), exist_ok=True)
-    seen = set()
+    groups = {}
     for res, d in violations:
+        groups.setdefault((d["name"], res["scenario"]), []).append((res, d))
+    for ident, cands in groups.items():
+        res, d = cands[0]
         ct = w.contracts.get(res["func"])
-        ident = (d["name"], res["scenario"])
-        if ident in seen:
-            continue
-        seen.add(ident)
         rp = os.path.join("replays", prop, safe(f"{d['name'].split('/')[-1]}__{res['func'].split('.')[-1]}__{res['scenario']}") + ".json")
+        confirmed = False
+        nat = job = None
+        if ct is not None and ct.native and ct.native.get("call"):
+            # replay the counter-models of this obligation (one per refuted path, at most 6) on the real code; keep the first that fails there
+            tries = [(r2, d2) for r2, d2 in cands if d2.get("args") is not None][:6]
+            jobs2 = [build_job(ct, d2["args"]) for _, d2 in tries]
+            outs2 = native_batch(jobs2) if jobs2 else []
+            for (r2, d2), j2, o2 in zip(tries, jobs2, outs2):
+                if nat is None:
+                    res, d, job, nat = r2, d2, j2, o2
+                if o2.get("failed"):
+                    res, d, job, nat, confirmed = r2, d2, j2, o2, True
+                    break
         replay = {"property": prop, "obligation": d["name"], "scenario": res["scenario"], "function": res["func"],
                   "clause": d["text"], "kind": d["kind"], "path_outcome": d["path"], "branch_trace": d["trace"],
                   "solver": {"backend": d["backend"], "status": "sat (counter-model)", "model": d.get("model")},
-                  "args": d.get("args"), "native": None, "confirmed": False}
-        confirmed = False
-        if ct is not None and d.get("args") is not None and ct.native and ct.native.get("call"):
-            job = build_job(ct, d["args"])
-            nat = native_run(job)
+                  "args": d.get("args"), "native": nat, "confirmed": confirmed, "refuted_paths": len(cands)}
+        if job is not None:
             replay["native_job"] = job
-            replay["native"] = nat
-            confirmed = bool(nat.get("failed"))
-        replay["confirmed"] = confirmed
         with open(os.path.join(REPLAY_ROOT, rp), "w") as fh:
             json.dump(replay, fh, indent=1, default=str)
         vio_count += 1
